@@ -109,7 +109,11 @@ func (w *world) canon() (*canonView, *simcore.Violation) {
 	}
 	for n := cv.hdr + 1; n <= w.tree.maxNum+2; n++ {
 		if h := rawdb.ReadCanonicalHash(w.db, n); h != (common.Hash{}) {
-			return nil, viol("canon-above-head", "canonical hash %x at #%d above the header head #%d", h[:4], n, cv.hdr)
+			fin := "none"
+			if f := bc.CurrentFinalBlock(); f != nil {
+				fin = fmt.Sprintf("#%d", f.Number)
+			}
+			return nil, viol("canon-above-head", "canonical hash %x (node %d) at #%d above the header head #%d (finalized %s)", h[:4], w.tree.nodeOf(h), n, cv.hdr, fin)
 		}
 	}
 	return cv, nil
@@ -198,6 +202,11 @@ func (w *world) checkLookups(cv *canonView, idle bool) *simcore.Violation {
 		hm, canonical := homes[h]
 		if lk != nil {
 			if !canonical {
+				if dbtx, _, _, _ := rawdb.ReadCanonicalTransaction(w.db, h); dbtx == nil {
+					v := viol("txlookup-noncanonical", "GetCanonicalTransaction(%x) gives #%d %x from its cache; the tx is not in the canonical chain and the database does not resolve it", h[:4], lk.BlockIndex, lk.BlockHash[:4])
+					v.Key = "txlookup-wrong:stale-lookup-cache"
+					return v
+				}
 				return viol("txlookup-noncanonical", "lookup of tx %x resolves to #%d %x but the tx is not in the canonical chain", h[:4], lk.BlockIndex, lk.BlockHash[:4])
 			}
 			if lk.BlockHash != hm.hash || lk.BlockIndex != hm.num || lk.Index != uint64(hm.idx) || tx == nil || tx.Hash() != h {
